@@ -133,7 +133,51 @@ theorem C10_accepted_supi_has_no_separator (supi : Bytes) (h : supiAccepted supi
   simp only [Bool.and_eq_true, Bool.not_eq_true', decide_eq_true_eq] at h
   intro hm
   have : supi.contains 47 = true := List.contains_iff_mem.mpr hm
-  rw [h.1.1.2] at this
+  rw [h.1.1.1.2] at this
   exact Bool.noConfusion this
+
+/-! ### … and it can be handed to the consumer: no control character
+
+  The reference travels in the `Location` header of the 201 answer. A header value with a control character is dropped by the
+  HTTP/2 transport (the consumer gets a 201 without any reference) and mangled or rejected by HTTP/1.1 clients: a session whose
+  SUPI or consumer name contains one could never be named (`nFName` "smf\n1" was answered 201). Such creates are refused. -/
+
+theorem decimalFuel_no_control (f n : Nat) : (decimalFuel f n).any isControl = false := by
+  induction f generalizing n with
+  | zero =>
+    simp only [decimalFuel, List.any_cons, List.any_nil, Bool.or_false, isControl, Bool.or_eq_false_iff,
+      decide_eq_false_iff_not, beq_eq_false_iff_ne]
+    omega
+  | succ f ih =>
+    unfold decimalFuel
+    split
+    · simp only [List.any_cons, List.any_nil, Bool.or_false, isControl, Bool.or_eq_false_iff, decide_eq_false_iff_not,
+        beq_eq_false_iff_ne]
+      omega
+    · rw [List.any_append, ih]
+      simp only [List.any_cons, List.any_nil, Bool.or_false, Bool.false_or, isControl, Bool.or_eq_false_iff,
+        decide_eq_false_iff_not, beq_eq_false_iff_ne]
+      omega
+
+theorem C10_reference_has_no_control_character (supi nf : Bytes) (n : Nat) (hs : supi.any isControl = false)
+    (hn : nf.any isControl = false) : (sessionId supi nf n).any isControl = false := by
+  unfold sessionId decimal
+  rw [List.any_append, List.any_append, List.any_append, hs, hn, decimalFuel_no_control]
+  decide
+
+/-- a SUPI with a control character is refused (400, nothing changes) -/
+theorem C10_supi_with_control_character_refused (guard : SplitGuard) (s : State) (r : Req) (h : r.supi.any isControl = true) :
+    step guard s (.create r) = (s, { status := 400 }) := by
+  have hrej : supiAccepted r.supi = false := by
+    unfold supiAccepted
+    rw [h]; simp
+  show create s r = _
+  exact create_rej s r (Or.inr hrej)
+
+theorem C10_accepted_supi_has_no_control_character (supi : Bytes) (h : supiAccepted supi = true) :
+    supi.any isControl = false := by
+  unfold supiAccepted at h
+  simp only [Bool.and_eq_true, Bool.not_eq_true'] at h
+  exact h.2
 
 end Chf.Props.C10
